@@ -1,4 +1,5 @@
 import Casket.Proofs.Reload
+import Casket.Proofs.ReloadSeq
 import Casket.Spec.Reload
 /-
 C07 — Reloading the configuration never drops or misroutes a request.   (PARTIAL)
@@ -79,6 +80,25 @@ theorem C07_failed_keeps_old (busy addrs : List Nat) (acts : List Act) :
 /-- a reachable state in which a listen fails after a listener was duplicated -/
 example : listenFails (run (M.init [3] [1]) [.begin 2 ⟨[1, 3], false⟩, .setup, .listen]) := by
   refine ⟨3, [], ?_, ?_, ?_, ?_⟩ <;> decide
+
+/-- **Model and judge agree on the sequential hand-over stream (partial: plain reloads).**  For every starting
+configuration that is valid for the environment and EVERY sequence of plain reloads (`R:` operations: any configurations,
+valid or failing at setup or at any listen, addresses kept, added, dropped or reordered), the observations of the protocol
+machine run under the sequential schedules of `c07.handover` satisfy every law of the judge `ReloadSpec.stepLaw`: valid ⇒
+loaded, the new generation answers, one descriptor, the SAME socket for every kept address; invalid ⇒ nothing changed.
+Missing (hence `_partial`): operations with a request in flight (`T:`); for those the link between model and judge is only
+tested by the stream. -/
+theorem C07_model_verdict_ok_partial (busy : List Nat) (c0 : Cfg) (hops : List HOp)
+    (hfree : ∀ a ∈ c0.addrs, busy.contains a = false) (hplain : ∀ op ∈ hops, ∃ c, op = .reload c) :
+    verdict busy c0 hops (handoverRun busy c0 hops) = "ok" := by
+  obtain ⟨h1, h2⟩ := start_ok (busy := busy) (c0 := c0) hfree
+  simp only [verdict, handoverRun, h1, runOps_check hops _ _ _ _ h2 hplain]
+
+example : ∀ op ∈ [HOp.reload ⟨[1, 2], false⟩, .reload ⟨[1, 3], false⟩, .reload ⟨[2], true⟩, .reload ⟨[2, 1], false⟩],
+    ∃ c, op = .reload c := by
+  intro op h
+  simp only [List.mem_cons, List.not_mem_nil, or_false] at h
+  rcases h with rfl | rfl | rfl | rfl <;> exact ⟨_, rfl⟩
 
 /-! ### the judges are not vacuous (tests of the executable predicates on hand-made observations) -/
 
